@@ -653,6 +653,21 @@ def gen_iso_data(rng, poly):
             elif hmode == "two-nan":
                 h[x] = ([ts[0] - 0.5, ts[0]], [hvals[m][2 * j + 1], float("nan")])
         hist.append(h)
+    dvars, delays = [], []
+    if rng.random() < 0.35:
+        # one delayed feedback yd = delay(2 x0 + b c0 + 5, tau): its history rows need the member's own
+        # pre-t0 constant inputs and state history (stamps t0-1, t0-0.5 before t0, tau <= 1 so that the
+        # history is complete and used)
+        hist_pts = 2
+        cin_times = [ts[0] - 1.0, ts[0] - 0.5] + list(ts)
+        for cn in cinputs:
+            cin[cn] = gen_member_values(rng, E, len(cin_times), lambda: pick_val(rng))
+        hv = gen_member_values(rng, E, nx * 3, lambda: pick_val(rng))
+        hist = [{x: ([ts[0] - 1.0, ts[0] - 0.5, ts[0]], hv[m][3 * j:3 * j + 3]) for j, x in enumerate(states)}
+                for m in range(E)]
+        dvars = ["yd"]
+        delays = [([(2.0, ("x0",)), (rng.choice([1.0, -1.0, 0.5]), (cinputs[0],)), (5.0, ())], "yd",
+                   rng.choice([0.25, 0.5, 0.75, 1.0]))]
     nom = {}
     if rng.random() < 0.5:
         for v in states[1:] + controls:
@@ -673,7 +688,8 @@ def gen_iso_data(rng, poly):
     return dict(ts=ts, E=E, states=states, algs=algs, controls=controls, cinputs=cinputs, params=params,
                 eqs=eqs, pvals=pvals, cin_times=cin_times, cin=cin, hist=hist, nom=nom, probs=probs,
                 pobj=pobj, obj=obj, pc_rows=pc_rows, pcb=pcb, pc_kind=pc_kind, pc_ts=pc_ts, ptb=ptb,
-                theta=rng.choice([1.0, 1.0, 1.0, 0.5, 0.0]), poly=poly, pmodes=pmodes, wscale=wscale)
+                theta=rng.choice([1.0, 1.0, 1.0, 0.5, 0.0]), poly=poly, pmodes=pmodes, wscale=wscale,
+                dvars=dvars, delays=delays)
 
 
 def iso_spec(dt):
@@ -689,7 +705,8 @@ def iso_spec(dt):
                 ([[(1.0, (("at", dt["algs"][0], n - 1),)), (1.0, (("at", dt["controls"][0], n - 1),))]],
                  -6.0 - dt["ptb"][m][1], 6.0 + dt["ptb"][m][0])]
 
-    return Spec(times=dt["ts"], states=dt["states"], algs=dt["algs"], controls=dt["controls"],
+    return Spec(times=dt["ts"], states=dt["states"], algs=dt["algs"] + dt["dvars"], controls=dt["controls"],
+                delays=dt["delays"],
                 cinputs=dt["cinputs"], params=dt["params"], eqs=dt["eqs"], E=dt["E"], pvals=dt["pvals"],
                 cin_times=dt["cin_times"], cin=dt["cin"], hist=dt["hist"], nom=dt["nom"], probs=dt["probs"],
                 theta=dt["theta"], bnds={u: (-10.0, 10.0) for u in dt["controls"]},
@@ -703,6 +720,8 @@ def perturb_other(rng, dt, mstar):
     E = dt["E"]
     others = [m for m in range(E) if m != mstar]
     kinds = rng.sample(["param", "input", "history", "bounds", "prob"], rng.randint(1, 3))
+    if dt["delays"] and "input" not in kinds and "history" not in kinds:
+        kinds.append(rng.choice(["input", "input", "history"]))  # the delay history must see a change
     done = []
     for kind in kinds:
         if kind == "param":
@@ -716,7 +735,7 @@ def perturb_other(rng, dt, mstar):
             new = rng.choice([v for v in cands if v != old] or [old + 1.5])
             d2["pvals"][mstar][i] = new
         elif kind == "input":
-            cn = rng.choice(dt["cinputs"])
+            cn = dt["cinputs"][0] if dt["delays"] else rng.choice(dt["cinputs"])
             src = rng.choice(others)
             vals = list(dt["cin"][cn][src]) if rng.random() < 0.5 else [pick_val(rng) for _ in dt["cin_times"]]
             if vals == dt["cin"][cn][mstar]:
@@ -741,7 +760,7 @@ def perturb_other(rng, dt, mstar):
 
 def owned_columns(tr, dt, m):
     cols = set()
-    for v in dt["states"] + dt["algs"]:
+    for v in dt["states"] + dt["algs"] + dt["dvars"]:
         cols.update(tr.idx(v, m))
     for x in dt["states"]:
         cols.update(tr.idx("initial_der(%s)" % x, m))
@@ -785,11 +804,13 @@ def stream_isolation(c, N):
         dt = gen_iso_data(rng, poly)
         E = dt["E"]
         mstar = 0 if rng.random() < 0.4 else rng.randrange(E)
+        if dt["delays"] and rng.random() < 0.5:
+            mstar = E - 1  # stale per-member data left over from a loop is the last member's
         d2, kinds = perturb_other(rng, dt, mstar)
         view = dict(stream="isolation", changed_member=mstar, changed=kinds, base=dt, other=d2)
         r1 = call(lambda: Transcription(cls(spec=iso_spec(dt))))
         r2 = call(lambda: Transcription(cls(spec=iso_spec(d2))))
-        c.count(("iso", E, len(dt["params"]), tuple(kinds), poly, dt["theta"], len(dt["states"]), tuple(dt["pmodes"]),
+        c.count(("iso", E, len(dt["params"]), tuple(kinds), poly, dt["theta"], len(dt["states"]), tuple(dt["pmodes"]), bool(dt["delays"]),
                  tuple(tuple(dt["pvals"][m][i] == dt["pvals"][0][i] for m in range(E)) for i in range(len(dt["params"])))))
         c.programs += 1
         c.hit("iso/" + ("poly" if poly else "affine"))
@@ -797,6 +818,8 @@ def stream_isolation(c, N):
             c.hit("iso/changed-" + kd)
         for pm in dt["pmodes"]:
             c.hit("iso/param-column-" + pm)
+        if dt["delays"]:
+            c.hit("iso/delayed-feedback")
         c.sample(dict(stream="isolation", changed_member=mstar, changed=kinds, E=E, pvals=dt["pvals"],
                       pvals_other=d2["pvals"], theta=dt["theta"]), limit=6)
         if r1[0] == "raise" or r2[0] == "raise":
@@ -823,6 +846,8 @@ def stream_isolation(c, N):
         c.hit("iso/unowned-rows", sum(1 for ow in row_owner if not ow))
         aff1 = None if poly else t1.affine_g()
         aff2 = None if poly else t2.affine_g()
+        if dt["delays"]:
+            c.hit("iso/delay-complete-affine" if (aff1 is not None and aff2 is not None) else "iso/delay-probes-only")
         probes = [np.array([rng.choice([rng.uniform(-2, 2), 0.0, 1.0]) for _ in range(t1.N)]) for _ in range(3)]
         gv = [(t1.fg(X)[1], t2.fg(X)[1]) for X in probes]
         gradf = []
